@@ -2,7 +2,8 @@ SPEC = {
     "corr": [{"kind": "ipfix-wf", "quick": 6000, "thorough": 600000},
              {"kind": "ipfix", "quick": 4000, "thorough": 300000}],
     "rule": "ipfix-wf: sessions of well-formed generated IPFIX messages (template / options template / data sets, IANA and "
-            "enterprise elements, fixed lengths and the 65535 marker with 1- and 3-octet prefixes, padding) with a "
+            "enterprise elements, fixed lengths and the 65535 marker with 1- and 3-octet prefixes, data records of any positive "
+            "length, set padding of 0 .. min(shortest record of the template - 1, 7) octets as RFC 7011 3.3.1 allows) with a "
             "model-independent expected-decode oracle; ipfix: mixed stream with about 12 % malformed datagrams; "
             "non-trivial = the implementation produced a non-error result; distinct = distinct case line",
     "assumptions": ["information model = the table regenerated from ipfix/rfc5102_model.go (lookupElem is opaque in the proofs)",
@@ -19,9 +20,14 @@ META = {
             "well-formed message = header, exactly the expected records, no non-fatal error, cache updated; templates "
             "announced earlier in the message are in force for later sets: announced_template_in_force). The encoders and "
             "the decidable well-formedness predicates are in Vflow/Spec/Wire.lean, written from RFC 7011 without reference "
-            "to the decoder. Preconditions that the proof forces and that are stated, not hidden: every data record is "
-            "longer than 4 octets (known finding K2, k2_counterexample proves the hypothesis cannot be dropped: 3 records "
-            "encoded, 2 decoded), <= 4 padding octets, set length < 65536, non-empty sets, template ids != 0, a template "
+            "to the decoder. Preconditions that are stated, not hidden: every data record has a positive length; the "
+            "padding of a data set is shorter than the shortest record its template can describe (RFC 7011 3.3.1; "
+            "Wire.Ipfix.minRecLen, minRecLen_is_shortest) and the padding of a template set is at most 4 octets (RFC: 0..3); "
+            "the former hypotheses 'record longer than 4 octets' (finding K2) and '<= 4 padding octets' were forced by the "
+            "decoder's constant `> 4`, not by the RFC: under the second, 5..7 octets of padding after records of >= 8 octets "
+            "lost the whole message (F16). Both are repaired in the code (fix aeca3ca) and gone from the theorems; "
+            "k2_repaired / k3_repaired evaluate the former counterexamples. Further: set length < 65536, non-empty sets, "
+            "template ids != 0, a template "
             "record has >= 1 field, enterprise elements have id >= 1, the data set's template is what Cache.lookup returns "
             "on the cache as updated by the preceding sets. Nothing is partial. The model is tied to ipfix/decoder.go by "
             "the differential correspondence on generated well-formed and malformed datagram streams plus a "
